@@ -907,7 +907,7 @@ package ion
 //@ atcall[C05,C11] (*binaryWriter).resolveFromSymbolTable val.Text != nil && a2 == *val.Text
 //@ counts (*binaryWriter).resolveFromSymbolTable
 //@ atcall[C05] (*binaryWriter).writeSymbolFromID [id uint64] a2 == id && (val.Text == nil ==> val.LocalSID != SymbolIDUnknown && id == uint64(val.LocalSID))
-//@ atcall[C05] (*binaryWriter).writeSymbolFromID val.Text != nil ==> vcCalls("(*binaryWriter).resolveFromSymbolTable") == 1
+//@ atcall[C05,C11] (*binaryWriter).writeSymbolFromID val.Text != nil ==> vcCalls("(*binaryWriter).resolveFromSymbolTable") == 1
 //@ ensures[C12,C19] old(w.err) != nil ==> err == old(w.err) && w.err == old(w.err)
 //@ ensures[C12,C19] err != nil ==> w.err != nil
 
@@ -1271,6 +1271,7 @@ package ion
 //@ ensures[C07,C15] err == nil ==> 1 <= ts[1] && ts[1] <= 12 && 1 <= ts[2] && ts[2] <= 31
 //@ ensures[C07,C15] err == nil ==> 0 <= ts[3] && ts[3] <= 23 && 0 <= ts[4] && ts[4] <= 59 && 0 <= ts[5] && ts[5] <= 59
 //@ ensures[C07,C15] err == nil && precision > TimestampPrecisionDay ==> -1440 < offset && offset < 1440
+//@ ensures[C03,C15] specDateRoundTrips(ts, nsecs) && (precision <= TimestampPrecisionDay || (-1440 < offset && offset < 1440)) ==> err == nil
 //@ safe[C06]
 
 // Text timestamps: an offset of 24 hours or more, or 60 minutes or more, is rejected (C15).
